@@ -26,6 +26,11 @@ LOG = []
 
 
 class Node(BaseComponent):
+    def unregisterChild(self, component):
+        # (harness marker: the moment a component leaves the tree, in the order of everything else that is logged)
+        LOG.append(('detach', None, getattr(component, 'label', None)))
+        return super().unregisterChild(component)
+
     @handler('probe')
     def _on_probe(self, event, *a):
         LOG.append(('probe', event, self.label))
@@ -123,6 +128,7 @@ class TreeModel(e1_history.Model):
             if len(c):
                 w.reg_with_queue = True
             c.register(p)
+            LOG.append(('attach', None, (c.label, p.label)))
             w.nreg += 1
             w.reg_pairs.append((c.label, p.label))
         elif k == 'unreg':
@@ -154,6 +160,7 @@ class TreeModel(e1_history.Model):
             c.fire(e, tgt)
         elif k == 'tick':
             before = len(LOG)
+            LOG.append(('tick-begin', None, op[1]))
             comps[op[1]].tick()
             self.account(w, before)
         self.observe(w)
@@ -241,6 +248,7 @@ class TreeModel(e1_history.Model):
             for c in w.comps:
                 if c.parent is c and len(c):
                     before = len(LOG)
+                    LOG.append(('tick-begin', None, c.label))
                     c.tick()
                     self.account(w, before)
                     self.observe(w)
@@ -263,6 +271,29 @@ class TreeModel(e1_history.Model):
             for k, seen in d.items():
                 if len(seen) != len(set(seen)):
                     bad.append(('I3-%s-twice' % what, 'one `%s` event was delivered twice to the same component: %r' % (what, seen)))
+        # a component receives nothing from a tree it has left: replay the log with a ghost forest that follows the attach /
+        # detach markers; every delivery must go to a member of the tree of the root that is being ticked at that moment
+        gpar = {i: None for i in range(self.n)}
+        for (c_, p_) in self.init:
+            gpar[c_] = p_
+
+        def groot(i):
+            n_ = 0
+            while gpar[i] is not None and n_ <= self.n:
+                i = gpar[i]
+                n_ += 1
+            return i
+        cur = None
+        for ent in LOG:
+            if ent[0] == 'attach':
+                gpar[ent[2][0]] = ent[2][1]
+            elif ent[0] == 'detach':
+                gpar[ent[2]] = None
+            elif ent[0] == 'tick-begin':
+                cur = ent[2]
+            elif ent[0] in ('probe', 'bcast') and cur is not None and groot(ent[2]) != cur:
+                bad.append(('I6-delivery-after-detach', 'c%d received a %s event dispatched by root c%d although it had already left that tree'
+                            % (ent[2], ent[0], cur)))
         # ... and every announcement names the component and the parent it joined / left
         for what, exp in (('registered', w.reg_pairs), ('unregistered', w.unreg_pairs)):
             named = {}
